@@ -73,6 +73,20 @@ def cp(b):
         (b.copy() if isinstance(b, np.ndarray) else b)
 
 
+def draw_sigma(rng):
+    """"scalar or sequence of scalars" (documented): scalars incl. 0, per-axis pairs incl. one or both zero, as
+    list / tuple / ndarray."""
+    r = rng.random()
+    if r < 0.5:
+        return float(rng.choice([0.5, 1, 2, 5, 10]))
+    if r < 0.58:
+        return [0.0, 0, np.float64(0)][int(rng.integers(3))]
+    if r < 0.65:
+        return int(rng.choice([1, 2, 5]))
+    pair = [float(rng.choice([0, 0, 0.5, 1, 2, 5, 10])), float(rng.choice([0, 0.5, 1, 2, 5, 10]))]
+    return [list, tuple, np.array][int(rng.integers(3))](pair)
+
+
 def run(ctx):
     F = core.import_flowcal()
     mon = monitors.Monitors(ctx, F)
@@ -98,7 +112,7 @@ def run(ctx):
             f = int(rng.integers(1, N + 1)) / float(N)
         else:
             f = float(rng.random())
-        sigma = float(rng.choice([0.5, 1, 2, 5, 10]))
+        sigma = draw_sigma(rng)
         chans = [0, 1] if rng.random() < 0.7 else [1, 0]
         o = core.attempt(d2, data, chans, cp(bins), f, 'linear', 'linear', sigma, None, True)
         desc = dict(events=ekind, N=N, bins=bkind, f=f, sigma=sigma, channels=chans)
@@ -162,7 +176,7 @@ def run(ctx):
         bins = nb if rng.random() < 0.6 else [nb, int(rng.choice([4, 20]))]
         chans = [s.channels[0], s.channels[1]] if rng.random() < 0.5 else [0, 1]
         f = float(rng.choice([0.3, 0.65, 0.9, 1.0, rng.random()]))
-        sigma = float(rng.choice([1, 5, 10]))
+        sigma = draw_sigma(rng) if rng.random() < 0.5 else float(rng.choice([1, 5, 10]))
         desc = dict(kind='int' if isint else 'float', N=N, bins=repr(bins), scale=scale, f=f, sigma=sigma)
         o = core.attempt(d2, s, chans, cp(bins) if isinstance(bins, list) else bins, f, scale[0], scale[1], sigma, None, True)
         if ctx.check(not o.raised, 'density2d:valid-call-refused', cid, exc=core.exc_str(o.exc) if o.raised else None, **desc):
